@@ -512,7 +512,8 @@ static std::string run_pool_case(std::vector<std::string> const &w)
 				if(kind==0) { p->gates_started++; p->cv.notify_all(); p->cv.wait(lk,[p]{return p->released;}); }
 				p->cv.notify_all();
 			}
-			if(kind==2) throw std::runtime_error("job failed");
+			// both catch clauses of the worker are exercised: std::exception and catch(...)
+			if(kind==2) { if(idx%2) throw 42; throw std::runtime_error("job failed"); }
 		});
 		ids.push_back(id);
 	};
@@ -759,10 +760,19 @@ static std::string run_stale_timer_case(std::vector<std::string> const &w,int ba
 	return res;
 }
 
+// a case that does not finish (a loop that spins or sleeps for ever) is reported, not waited for
+static void watchdog(int)
+{
+	static char const msg[]="hung-watchdog\n";
+	(void)::write(1,msg,sizeof(msg)-1);
+	_exit(4);
+}
+
 int main(int argc,char **argv)
 {
 	int backend=io::reactor::use_default;
 	signal(SIGPIPE,SIG_IGN);
+	signal(SIGALRM,watchdog);
 	if(argc>1) {
 		std::string b=argv[1];
 		if(b=="epoll") backend=io::reactor::use_epoll;
@@ -771,6 +781,8 @@ int main(int argc,char **argv)
 	}
 	return vh::drive([&](std::vector<std::string> const &w)->std::string {
 		if(w.empty()) return "bad-op";
+		alarm(150);
+		struct disarm { ~disarm(){ alarm(0); } } d;
 		if(w[0]=="L") return run_loop_case(w,backend);
 		if(w[0]=="K") return run_pool_case(w);
 		if(w[0]=="C") return run_free_case(w,backend);
